@@ -42,7 +42,8 @@ def c12(work, tier, seed):
     scripts = []
     hostlists = [[["H1", ":", "PA"]], [["H1", ":", "PA"], ["H1", ":", "PB"]], [["H127", "PH", ":", "PA"]], [["H1", ":", "PA"], ["H127", "PH", ":", "PB"]]]
     params = ["absent", "listed", "listed2", "unlisted", "qtok-ok", "qtok-unlisted", "qtok-forged", "qtok-expired", "qtok-wrongiss", "garbage"]
-    addrs = [("", ""), ("", "10.1.2.3"), ("127.0.0.2", ""), ("", "10.1.2.3, 192.168.0.1"), ("::1", ""), ("127.0.0.2", " 10.9.9.9 ,10.1.1.1")]
+    addrs = [("", ""), ("", "10.1.2.3"), ("127.0.0.2", ""), ("", "10.1.2.3, 192.168.0.1"), ("::1", ""), ("127.0.0.2", " 10.9.9.9 ,10.1.1.1"),
+             ("", "2001:db8::17"), ("", "2001:db8::17, 10.0.0.1"), ("::1", "fe80::1%eth0"), ("", "10.1.2.3:4711")]
     for sel in ("roundrobin", "unsigned", "any", "signed"):
         for hi, hosts in enumerate(hostlists):
             for store in (("cookie", "file") if tier == "thorough" else (["cookie", "file"][hi % 2],)):
